@@ -168,11 +168,32 @@ def is_element_read(t):
     return False
 
 
-def check_scale_guards(prog, rep, rule, fnkeys, floor_each=1, values=False, missing_ok=False, why=None):
+def check_scale_guards(prog, rep, rule, fnkeys, floor_each=1, values=False, missing_ok=False, why=None, follow_helpers=False):
     """every branch on a floating-point comparison in the listed factorisation bodies must be scale consistent: comparing
     data with the constant 0, or two quantities of the same degree in the data.  (P.A = L.U and L.L^T = A are claimed for every
     matrix, hence also for c*A: a threshold that is not homogeneous makes the factorisation of c*A differ structurally.)"""
     total = 0
+    if follow_helpers:
+        # helpers extracted from the listed bodies (same module, not public API of another module) are part of them
+        fnkeys = list(fnkeys)
+        seen_ = set(fnkeys)
+        work = list(fnkeys)
+        while work:
+            k0 = work.pop()
+            f0 = prog.func(k0)
+            if f0 is None:
+                continue
+            mod = k0.rsplit('::', 1)[0] if not k0.startswith('<') else None
+            for c in f0.calls():
+                if c.path and c.path in prog.pdb.bodies and c.path not in seen_ and prog.pdb.bodies[c.path].vis != 'pub' and \
+                        (mod is None or c.path.startswith(mod + '::') or '::' not in c.path):
+                    seen_.add(c.path)
+                    fnkeys.append(c.path)
+                    work.append(c.path)
+            for b_ in prog.pdb.closures_of(k0):
+                if b_.key not in seen_:
+                    seen_.add(b_.key)
+                    fnkeys.append(b_.key)
     for k in fnkeys:
         f = prog.func(k)
         if f is None:
